@@ -11,23 +11,27 @@
    `fetched s` = upstream call log (main tile of the meta tile asked for; the tile itself without meta tiling).
    Expiry: `grid_sys_x g recheck reload up expire old` is the same system with an expire timestamp (refresh_before,
    seeding) when `expire = true`; `old t` = the expired file of tile t present at the start (None: no such file),
+   `grid_sys_b .. bulk` adds bulk meta tiles (_create_bulk_meta_tile); `grid_sys_x ..` = `grid_sys_b .. false`.
    `c0` / `cache s` = the files is_cached accepts (present and not expired).  So `cached c0 r = false` reads
    "r is missing OR expired at the start".  `grid_sys g ..` = `grid_sys_x g .. false (fun _ => None)`. *)
 From Coq Require Import ZArith List Bool Arith Ascii.
 Import ListNotations.
 From MP Require Import Base Creator Creator_proofs Creator_commute.
 
-(* The upstream is asked at most once per meta tile - for any number of requesters, any request lists, any
+(* `queries S m` = the upstream requests for meta tile m: [m] (one request for the meta tile / the tile), or - tiled
+   source with bulk_meta_tiles, `bulk = true` on a meta grid - one request per tile of m.
+   The upstream is asked at most once per meta tile (bulk: once per tile of the meta tile) - for any number of requesters, any request lists, any
    initial cache with correct content, with or without an expire timestamp and expired files, and any
    interleaving - and only for meta tiles of requested tiles that were missing or expired at the start.
    (The re-check under the lock looks at the file as it is then: a tile re-created by the lock holder counts.) *)
 Theorem one_fetch_per_meta_tile :
-  forall g reload up expire old c0 reqs sched,
+  forall g reload up expire old bulk c0 reqs sched,
     valid_gconf g -> valid_reqs g reqs -> content_ok up c0 -> old_ok expire old ->
-    let s := run (grid_sys_x g true reload up expire old) (init c0 reqs) sched in
+    let S := grid_sys_b g true reload up expire old bulk in
+    let s := run S (init c0 reqs) sched in
     NoDup (fetched s) /\
-    forall m, In m (fetched s) ->
-              exists req r, In req reqs /\ In r req /\ cached c0 r = false /\ m = g_main g r.
+    forall q, In q (fetched s) ->
+              exists req r, In req reqs /\ In r req /\ cached c0 r = false /\ In q (queries S (g_main g r)).
 Proof. exact grid_one_fetch. Qed.
 
 (* Every finished requester hands back, for every tile it asked for, the image the upstream draws for exactly that
@@ -35,9 +39,9 @@ Proof. exact grid_one_fetch. Qed.
    `response_in (cache s) pr` is the response as it is built: tiles loaded from the cache are file sources that are
    read then (a request that loaded an expired file and waited for the lock hands back the re-created file). *)
 Theorem all_responses_correct :
-  forall g up expire old c0 reqs sched p pr,
+  forall g up expire old bulk c0 reqs sched p pr,
     valid_gconf g -> valid_reqs g reqs -> content_ok up c0 -> old_ok expire old ->
-    let s := run (grid_sys_x g true true up expire old) (init c0 reqs) sched in
+    let s := run (grid_sys_b g true true up expire old bulk) (init c0 reqs) sched in
     nth_error (procs s) p = Some pr -> p_pc pr = Done ->
     exists req, nth_error reqs p = Some req /\ response_in (cache s) pr = map (fun r => (r, Some (up r))) req.
 Proof. exact grid_responses_built. Qed.
@@ -46,9 +50,9 @@ Proof. exact grid_responses_built. Qed.
    valid at the start or belong to the meta tile of a requested tile that was missing or expired at the start;
    when all requesters have finished it holds exactly those, each with its own image. *)
 Theorem final_cache_exact :
-  forall g reload up expire old c0 reqs sched,
+  forall g reload up expire old bulk c0 reqs sched,
     valid_gconf g -> valid_reqs g reqs -> content_ok up c0 -> old_ok expire old ->
-    let s := run (grid_sys_x g true reload up expire old) (init c0 reqs) sched in
+    let s := run (grid_sys_b g true reload up expire old bulk) (init c0 reqs) sched in
     (forall t v, lookup (cache s) t = Some v ->
                  v = up t /\ (cached c0 t = true \/ needed_tile g c0 reqs t)) /\
     (all_done s = true ->
@@ -73,10 +77,10 @@ Proof. exact grid_main_same_iff. Qed.
 (* ... a lock attempt is refused only while ANOTHER requester is inside the critical section of the same lock
    file; requesters of different meta tiles never make each other wait ... *)
 Theorem lock_refused_only_by_holder :
-  forall g reload up expire old c0 reqs sched p k,
+  forall g reload up expire old bulk c0 reqs sched p k,
     valid_gconf g -> valid_reqs g reqs -> content_ok up c0 -> old_ok expire old ->
-    let s := run (grid_sys_x g true reload up expire old) (init c0 reqs) sched in
-    snd (step (grid_sys_x g true reload up expire old) s p) = OLock k false ->
+    let s := run (grid_sys_b g true reload up expire old bulk) (init c0 reqs) sched in
+    snd (step (grid_sys_b g true reload up expire old bulk) s p) = OLock k false ->
     exists q prq m, q <> p /\ nth_error (procs s) q = Some prq /\ holds (p_pc prq) = Some m /\ g_key g m = k.
 Proof. exact grid_refused. Qed.
 
@@ -85,9 +89,9 @@ Proof. exact grid_refused. Qed.
    commute - in either order both make the same observations and reach the same local states, and cache, lock
    table and upstream log are the same (`sequiv`: equal as maps, log equal up to the order of the two entries). *)
 Theorem different_meta_tiles_independent :
-  forall g reload up expire old c0 reqs sched p q prp prq mp mq,
+  forall g reload up expire old bulk c0 reqs sched p q prp prq mp mq,
     valid_gconf g -> valid_reqs g reqs -> content_ok up c0 -> old_ok expire old ->
-    let S := grid_sys_x g true reload up expire old in
+    let S := grid_sys_b g true reload up expire old bulk in
     let s := run S (init c0 reqs) sched in
     p <> q -> nth_error (procs s) p = Some prp -> nth_error (procs s) q = Some prq ->
     working (p_pc prp) = Some mp -> working (p_pc prq) = Some mq -> mp <> mq ->
@@ -110,11 +114,11 @@ Proof. exact step_commute. Qed.
 (* No deadlock: whenever a lock attempt is refused, some other requester can take a step that is not a refused
    lock attempt (the holder is inside its critical section, where it never waits for a second lock). *)
 Theorem refused_lock_has_running_holder :
-  forall g reload up expire old c0 reqs sched p k,
+  forall g reload up expire old bulk c0 reqs sched p k,
     valid_gconf g -> valid_reqs g reqs -> content_ok up c0 -> old_ok expire old ->
-    let s := run (grid_sys_x g true reload up expire old) (init c0 reqs) sched in
-    snd (step (grid_sys_x g true reload up expire old) s p) = OLock k false ->
-    exists q, q <> p /\ forall k', snd (step (grid_sys_x g true reload up expire old) s q) <> OLock k' false.
+    let s := run (grid_sys_b g true reload up expire old bulk) (init c0 reqs) sched in
+    snd (step (grid_sys_b g true reload up expire old bulk) s p) = OLock k false ->
+    exists q, q <> p /\ forall k', snd (step (grid_sys_b g true reload up expire old bulk) s q) <> OLock k' false.
 Proof. exact grid_no_deadlock. Qed.
 
 (* TileLocker.lock_filename is injective in (cache id, tile coordinate) for cache ids of equal length
